@@ -71,13 +71,21 @@ class FlowGraph(DiGraph):
 
         # Add between nodes and follow up nodes:
         node = None
+        previous = None
         for ins in instrs:
             if self.has_node(ins):
-                node = self.get_node(ins)
+                next_node = self.get_node(ins)
+                # An instruction without jumps continues with the next
+                # instruction. When that one is a leader (a jump target),
+                # control falls through from one node into the other.
+                if previous is not None and not previous.jumps:
+                    self.add_edge(node, next_node)
+                node = next_node
             if ins.jumps:
                 for j in ins.jumps:
                     to_node = self.get_node(j)
                     self.add_edge(node, to_node)
+            previous = ins
 
         # Add other instruction into leader nodes:
         node = None
